@@ -12,7 +12,7 @@ cd $W
 name=$(grep -o 'func Test[A-Za-z0-9_]*' $dir/zz_seeded_demo_test.go | head -1 | cut -d' ' -f2)
 {
 echo "== demo WITHOUT change"; go test -count=1 -run "$name" ./$dir/ 2>&1 | tail -3; r1=${PIPESTATUS[0]}
-echo "== apply"; git apply $S/patch.diff; echo "apply rc=$?"
+P=$S/patch.diff; [ -f $S/patch.rebased.diff ] && P=$S/patch.rebased.diff; echo "== apply $(basename $P)"; git apply $P; echo "apply rc=$?"
 echo "== build"; go build ./... 2>&1 | tail -3; rb=${PIPESTATUS[0]}
 echo "== existing tests of $dir"; mv $dir/zz_seeded_demo_test.go /tmp/zz_$$.go; go test -count=1 ./$dir/... 2>&1 | tail -4; rt=${PIPESTATUS[0]}; mv /tmp/zz_$$.go $dir/zz_seeded_demo_test.go
 echo "== demo WITH change"; go test -count=1 -run "$name" ./$dir/ 2>&1 | tail -5; r2=${PIPESTATUS[0]}
